@@ -129,7 +129,11 @@ def gen_discovery(rnd, idx):
     home = cfg = None
     hk = rnd.random()
     home_is_file = False
-    if hk < 0.55:
+    if hk < 0.2 and depth >= 1:
+        # $HOME is an ancestor (or the directory itself) of the file: configuration files ABOVE the home directory are still
+        # nearer than the home directory's own
+        home = chain[:rnd.randint(1, depth)]
+    elif hk < 0.55:
         home = [20]
         dirs.append([20])
         for nm in (1, 2):
@@ -307,6 +311,17 @@ def gen_precedence(rnd, idx):
     if any(k == MW for k, _ in inl):
         # the outcome of max_width together with a width in the same --config list depends on the HashMap order
         inl = [[k, v] for k, v in inl if k not in WIDTHS]
+    x = rnd.random()
+    if x < 0.12:
+        # an option pinned on the command line to the value it would have anyway, next to a key that makes rustfmt re-derive it:
+        # a width at its default with a larger max_width / another heuristics mode (value <= 100: the order of the two does not matter)
+        k = rnd.choice(WIDTHS)
+        inl = [[k, DEFAULT_WIDTH[k]], rnd.choice([[MW, rnd.choice([120, 150, 200, 300])], [USH, 1]])]
+        rnd.shuffle(inl)
+    elif x < 0.2:
+        # ... or the successor of a deprecated alias pinned to its default next to the alias
+        inl = rnd.choice([[[IG, 0], [MI, 1]], [[FPL, 1], [FAL, rnd.choice([0, 2])]], [[SPE, 1], [HPE, 1]]])
+        rnd.shuffle(inl)
     ed = rnd.choice([None, None, 0, 1, 2, 3])
     se = rnd.choice([None, None, None, 0, 1, 2, 3, 4])
     check = rnd.random() < 0.2
@@ -778,7 +793,7 @@ def run(tier, seed, replay):
     rep.coverage.update({
         "evaluations": n_eval,
         "distinct_nontrivial": len(nontrivial),
-        "rule": "(a) %d seeded directory layouts (start directory 0..3 levels deep; each level with .rustfmt.toml / rustfmt.toml as file, unparsable file or directory; home and config-dir/rustfmt files; $HOME naming a regular file; --config-path to a directory with/without config, a file, a missing path), every config file with its own max_width, chosen file read off `--print-config current`; compared with run_discover and with the nearest/dotted/home/config-dir/--config-path rule recomputed in python. "
+        "rule": "(a) %d seeded directory layouts (start directory 0..3 levels deep; each level with .rustfmt.toml / rustfmt.toml as file, unparsable file or directory; home and config-dir/rustfmt files; $HOME beside the project or an ancestor of the file (configuration above it); $HOME naming a regular file; --config-path to a directory with/without config, a file, a missing path), every config file with its own max_width, chosen file read off `--print-config current`; compared with run_discover and with the nearest/dotted/home/config-dir/--config-path rule recomputed in python. "
                 "(b) %d command lines (fixed + seeded): config file of 0..6 of the 26 modelled options, --config with 0..4 pairs, --edition/--style-edition/--check/--emit/--backup/--color/--unstable-features; every printed option compared with run_effective and with --config > flag > file > default(effective style edition), alias successors, explicit widths = min(value, max_width), derived widths <= max_width. "
                 "(c) WidthHeuristics::scaled for every max_width in %d..%d against run_scaled. "
                 "(d) %d printed configurations written back as rustfmt.toml and printed again (all keys of the output compared, also against the model). "
